@@ -1,2 +1,90 @@
-(* C11 - placeholder while the proofs are being written *)
+(* C11 - CNF conversion (CNFizer, PolarityCNFizer) and Ackermannization preserve satisfiability
+   model by model.  Statements only; proofs in proofs/Cnf_proofs.v and proofs/Ackermann_proofs.v.
+
+   Reading guide.  [cnf_convert asimp f st = Some (cl, st')]: CNFizer(env).convert(f) returns the
+   clause set cl when the manager is in state st (its _fresh_guess and symbol names) and leaves it
+   in st'; [asimp] is the simplifier on theory atoms, assumed to preserve truth values
+   ([simp_sound], which is property C01) and, for the shape theorems, to return literals
+   ([shape_hyp]).  [start_ok f st]: a new converter object, and the manager knows f's symbols.
+   [sat I cl]: every clause has a literal true under I; [as_formula cl] is convert_as_formula's
+   result and [as_formula_holds] ties the two.  [introduced st']: the fresh names. *)
+From Coq Require Import List String.
+From PySMT.core Require Import Syntax Sem.
 From PySMT.models Require Import Cnf.
+From PySMT.proofs Require Import Cnf_proofs.
+Import ListNotations.
+
+(* ---- CNFizer ---- *)
+Theorem C11_cnf_shape : forall asimp, simp_sound asimp -> forall f st cl st', shape_hyp asimp ->
+  cnf_convert asimp f st = Some (cl, st') -> clauses_of_literals cl.
+Proof. exact cnf_shape. Qed.
+Print Assumptions C11_cnf_shape.
+
+Theorem C11_cnf_complete : forall asimp, simp_sound asimp -> forall f st cl st' I, start_ok f st ->
+  cnf_convert asimp f st = Some (cl, st') -> holds I f ->
+  exists I', agrees_off (introduced st') I I' /\ sat I' cl = true /\ holds I' (as_formula cl) /\
+             (forall n, In n (introduced st') -> ~ In n (mnames (mgr st))).
+Proof. exact cnf_complete. Qed.
+Print Assumptions C11_cnf_complete.
+
+(* full soundness is FALSE of the faithful model: cnf(And(a, FALSE)) = {{a}} *)
+Theorem C11_cnf_sound_refuted :
+  exists asimp f st cl st' J, simp_sound asimp /\ start_ok f st /\
+    cnf_convert asimp f st = Some (cl, st') /\ sat J cl = true /\ ~ holds J f.
+Proof. exact cnf_sound_refuted. Qed.
+Print Assumptions C11_cnf_sound_refuted.
+
+(* the provable part: when the top-level clean-up empties no clause *)
+Theorem C11_cnf_sound_partial : forall asimp, simp_sound asimp -> forall f st cl st' J, start_ok f st ->
+  cnf_convert asimp f st = Some (cl, st') -> cnf_emptied asimp f st = false ->
+  sat J cl = true -> holds J f.
+Proof. exact cnf_sound_partial. Qed.
+Print Assumptions C11_cnf_sound_partial.
+
+(* and when it does, the input is unsatisfiable (so FALSE_CNF is the correct answer there) *)
+Theorem C11_cnf_emptied_unsat : forall asimp, simp_sound asimp -> forall f st I, start_ok f st ->
+  cnf_emptied asimp f st = true -> ~ holds I f.
+Proof. exact cnf_emptied_unsat. Qed.
+Print Assumptions C11_cnf_emptied_unsat.
+
+Theorem C11_as_formula : forall J cl, holds J (as_formula cl) <-> sat J cl = true.
+Proof. exact as_formula_holds. Qed.
+Print Assumptions C11_as_formula.
+
+(* ---- PolarityCNFizer ---- *)
+Theorem C11_pol_shape : forall asimp, simp_sound asimp -> forall f st cl st', shape_hyp asimp ->
+  pol_convert asimp f st = Some (cl, st') -> clauses_of_literals cl.
+Proof. exact pol_shape. Qed.
+Print Assumptions C11_pol_shape.
+
+Theorem C11_pol_complete : forall asimp, simp_sound asimp -> forall f st cl st' I, start_ok f st ->
+  pol_convert asimp f st = Some (cl, st') -> holds I f ->
+  exists I', agrees_off (introduced st') I I' /\ sat I' cl = true /\ holds I' (as_formula cl) /\
+             (forall n, In n (introduced st') -> ~ In n (mnames (mgr st))).
+Proof. exact pol_complete. Qed.
+Print Assumptions C11_pol_complete.
+
+Theorem C11_pol_sound_refuted :
+  exists asimp f st cl st' J, simp_sound asimp /\ start_ok f st /\
+    pol_convert asimp f st = Some (cl, st') /\ sat J cl = true /\ ~ holds J f.
+Proof. exact pol_sound_refuted. Qed.
+Print Assumptions C11_pol_sound_refuted.
+
+Theorem C11_pol_sound_partial : forall asimp, simp_sound asimp -> forall f st cl st' J, start_ok f st ->
+  pol_convert asimp f st = Some (cl, st') -> pol_emptied asimp f st = false ->
+  sat J cl = true -> holds J f.
+Proof. exact pol_sound_partial. Qed.
+Print Assumptions C11_pol_sound_partial.
+
+Theorem C11_pol_emptied_unsat : forall asimp, simp_sound asimp -> forall f st I, start_ok f st ->
+  pol_emptied asimp f st = true -> ~ holds I f.
+Proof. exact pol_emptied_unsat. Qed.
+Print Assumptions C11_pol_emptied_unsat.
+
+(* ---- Ackermannization ----
+   Only the refutation of the shape clause is a theorem; see proofs/Ackermann_proofs.v. *)
+From PySMT.models Require Import Ackermann.
+From PySMT.proofs Require Import Ackermann_proofs.
+Theorem C11_ack_shape_refuted : exists f st, has_app (fst (ackermannize f st)) = true.
+Proof. exact ack_shape_refuted. Qed.
+Print Assumptions C11_ack_shape_refuted.
